@@ -33,11 +33,14 @@ func RaceReleaseMerge(p unsafe.Pointer) { runtime.RaceReleaseMerge(p) }
 //go:norace
 func RaceErrors() int { return runtime.RaceErrors() }
 
+// raceSpawn/raceThreadStart publish the edge of the go statement (parent before the spawn -> child), which the
+// runtime does not establish while sync events are ignored. They must be called with sync events observed.
+//
 //go:norace
-func raceSpawn(t *Thread) {}
+func raceSpawn(t *Thread) { runtime.RaceRelease(unsafe.Pointer(&t.stok)) }
 
 //go:norace
-func raceThreadStart(t *Thread) {}
+func raceThreadStart(t *Thread) { runtime.RaceAcquire(unsafe.Pointer(&t.stok)) }
 
 //go:norace
 func raceThreadEnd(t *Thread) { runtime.RaceReleaseMerge(unsafe.Pointer(&t.tok)) }
